@@ -907,3 +907,173 @@ Theorem cache_reads_climbing c o s :
 Proof.
   intros Ha Hn. destruct o; simpl in Ha; inversion Ha; subst; simpl; unfold on1; rewrite Hn; reflexivity.
 Qed.
+
+(** * Commit after a FAILED Commit converges to the same tree
+    A failed Commit leaves the remote in an intermediate state: either only some of the
+    tombstones were applied (the failure happened in the removal phase), or all of them and some
+    of the buffer entries were materialised (any subset, in any order).  From every such state a
+    later Commit without failure reaches exactly the tree of an undisturbed Commit. *)
+Section Converge.
+Variable B : fs.
+Variable r0 : fs.
+Hypothesis WB : WF B.
+Hypothesis H1 : forall q, lookup B q = Some D -> forall d, lookup r0 q <> Some (F d).
+Hypothesis H2 : forall q d, lookup B q = Some (F d) -> lookup r0 q <> Some D.
+
+(** every path holds the buffer's entry, or still the entry of the tombstoned remote [r0], or —
+    for a buffer directory — an implicitly created directory; paths the buffer does not bind
+    hold what [r0] holds *)
+Definition G (r : fs) : Prop :=
+  WF r /\
+  forall q, match lookup B q with
+            | Some e => lookup r q = Some e \/ lookup r q = lookup r0 q \/ (e = D /\ lookup r q = Some D)
+            | None => lookup r q = lookup r0 q
+            end.
+
+Lemma G_not_file_at_buffer_dir r a : G r -> lookup B a = Some D -> is_file_at r a = false.
+Proof.
+  intros [_ Hg] Ha. unfold is_file_at. specialize (Hg a). rewrite Ha in Hg.
+  destruct Hg as [E|[E|[_ E]]]; rewrite E; try reflexivity.
+  destruct (lookup r0 a) as [[d|]|] eqn:E0; try reflexivity. exfalso. exact (H1 a Ha d E0).
+Qed.
+
+Lemma buffer_ancestor_dir p e a x : In (p, e) B -> x <> [] -> p = a ++ x -> lookup B a = Some D.
+Proof.
+  intros Hin Hx Hp. pose proof (WF_prefix_dir B WB x a Hx) as Hd. unfold exists_at, is_dir_at in Hd.
+  rewrite <- Hp, (In_lookup B p e WB Hin) in Hd. specialize (Hd eq_refl).
+  destruct (lookup B a) as [[|]|]; try discriminate. reflexivity.
+Qed.
+
+Lemma G_step r p e : G r -> In (p, e) B ->
+  exists r1, (match e with D => mkdir_all r p | F data => write_at r p data end) = Some r1 /\
+             G r1 /\ lookup r1 p = Some e /\
+             (forall q, q <> p -> lookup r q <> None -> lookup r1 q = lookup r q).
+Proof.
+  intros HG Hin. pose proof HG as [Wr Hg].
+  destruct (WF_entry_good _ _ _ WB Hin) as [Hgp Hp].
+  assert (HBp : lookup B p = Some e) by (apply In_lookup; assumption).
+  assert (Hanc : forall a, a <> [] -> forall x, x <> [] -> p = a ++ x -> is_file_at r a = false).
+  { intros a _ x Hx Hpx. apply G_not_file_at_buffer_dir; [exact HG|eapply buffer_ancestor_dir; eauto]. }
+  assert (Hstep : exists r1, (match e with D => mkdir_all r p | F data => write_at r p data end) = Some r1 /\
+            WF r1 /\ lookup r1 p = Some e /\
+            (forall q, q <> p -> lookup r q <> None -> lookup r1 q = lookup r q) /\
+            (forall q, q <> p -> lookup r q = None -> lookup r1 q <> None ->
+                       lookup r1 q = Some D /\ exists x, x <> [] /\ p = q ++ x)).
+  { destruct e as [data|].
+    - assert (Hnd : is_dir_at r p = false).
+      { unfold is_dir_at. specialize (Hg p). rewrite HBp in Hg. destruct Hg as [E|[E|[E _]]]; [rewrite E; reflexivity| |discriminate].
+        rewrite E. destruct (lookup r0 p) as [[|]|] eqn:E0; try reflexivity. exfalso. exact (H2 p data HBp E0). }
+      destruct (write_at_succeeds r p data Wr Hgp Hp) as [b Hb]; [|exact Hnd|].
+      { intros a Ha Hpre. apply is_prefix_spec in Hpre as [s Hs].
+        apply (Hanc a Ha (s ++ [last p []])); [destruct s; discriminate|].
+        rewrite app_assoc, <- Hs. apply app_removelast_last. exact Hp. }
+      destruct (write_at_spec _ _ _ _ Wr Hgp Hp Hb) as (Wb & Lp & _ & Fr & Nw).
+      exists b. split; [exact Hb|]. split; [exact Wb|]. split; [exact Lp|]. split; [exact Fr|].
+      intros q Hq Hn Hs. destruct (Nw q Hq Hn Hs) as [A Bp]. split; [exact A|].
+      apply is_prefix_spec in Bp as [s Hs']. exists (s ++ [last p []]). split; [destruct s; discriminate|].
+      rewrite app_assoc, <- Hs'. apply app_removelast_last. exact Hp.
+    - destruct (mkdir_all_succeeds r p) as [b Hb].
+      { intros a Ha Hpre. apply is_prefix_spec in Hpre as [s Hs]. destruct s as [|m s].
+        - rewrite app_nil_r in Hs. subst a. apply G_not_file_at_buffer_dir; assumption.
+        - apply (Hanc a Ha (m :: s)); [discriminate|exact Hs]. }
+      destruct (mkdir_all_spec _ _ _ Wr Hgp Hb) as (Wb & Dp & P1 & N1).
+      exists b. split; [exact Hb|]. split; [exact Wb|]. split.
+      { unfold is_dir_at in Dp. destruct (lookup b p) as [[|]|]; try discriminate. reflexivity. }
+      split.
+      + intros q _ Hex. destruct (lookup r q) as [e|] eqn:E; [|congruence]. apply P1. exact E.
+      + intros q Hq Hn Hs. destruct (N1 q Hn Hs) as [A Bp]. split; [exact A|].
+        apply is_prefix_spec in Bp as [s Hs']. exists s. split; [|exact Hs'].
+        intros ->. rewrite app_nil_r in Hs'. congruence. }
+  destruct Hstep as (r1 & Hs1 & W1 & Lp & Fr & Nw).
+  exists r1. split; [exact Hs1|]. split; [|split; [exact Lp|exact Fr]].
+  split; [exact W1|]. intros q. destruct (path_eqb q p) eqn:Eqp.
+  - apply path_eqb_spec in Eqp. subst q. rewrite HBp. left. exact Lp.
+  - apply path_eqb_false in Eqp. specialize (Hg q).
+    destruct (lookup r q) as [eq|] eqn:Erq.
+    + rewrite (Fr q Eqp) by congruence. rewrite Erq. exact Hg.
+    + destruct (lookup r1 q) as [e1|] eqn:E1.
+      * destruct (Nw q Eqp Erq) as (A & x & Hx & Hpx); [congruence|].
+        rewrite (buffer_ancestor_dir p e q x Hin Hx Hpx). right. right. split; [reflexivity|congruence].
+      * exact Hg.
+Qed.
+
+Lemma G_materialise l : forall r, G r -> (forall p e, In (p, e) l -> In (p, e) B) ->
+  exists r', materialise r l = Some r' /\ G r' /\
+             (forall q, lookup r q = lookup B q -> lookup r q <> None -> lookup r' q = lookup B q) /\
+             (forall p e, In (p, e) l -> lookup r' p = Some e).
+Proof.
+  induction l as [|[p e] l IH]; intros r HG Hl.
+  - exists r. split; [reflexivity|]. split; [exact HG|]. split; [auto|]. intros p e [].
+  - destruct (G_step r p e HG (Hl p e (or_introl eq_refl))) as (r1 & Hs & HG1 & Lp & Fr).
+    destruct (IH r1 HG1 (fun p' e' H => Hl p' e' (or_intror H))) as (r' & Hm & HG' & Keep & All).
+    exists r'. simpl. rewrite Hs. split; [exact Hm|]. split; [exact HG'|].
+    assert (HBp : lookup B p = Some e) by (apply In_lookup; [exact WB|apply Hl; left; reflexivity]).
+    split.
+    + intros q Hq Hne. destruct (path_eqb q p) eqn:Eqp.
+      * apply path_eqb_spec in Eqp. subst q. apply Keep; congruence.
+      * apply path_eqb_false in Eqp. apply Keep; rewrite (Fr q Eqp Hne); assumption.
+    + intros p' e' [Heq|Hin]; [|apply All; exact Hin]. inversion Heq; subst p' e'.
+      rewrite <- HBp. apply Keep; congruence.
+Qed.
+
+Theorem G_commit_all r : G r ->
+  exists r', materialise r B = Some r' /\ WF r' /\
+    forall q, lookup r' q = match lookup B q with Some e => Some e | None => lookup r0 q end.
+Proof.
+  intros HG. destruct (G_materialise B r HG (fun p e H => H)) as (r' & Hm & [W' Hg'] & _ & All).
+  exists r'. split; [exact Hm|]. split; [exact W'|]. intros q.
+  destruct (lookup B q) as [e|] eqn:Eb.
+  - destruct q as [|n q]; [simpl in *; congruence|].
+    apply All. apply lookup_In; [discriminate|exact Eb].
+  - specialize (Hg' q). rewrite Eb in Hg'. exact Hg'.
+Qed.
+End Converge.
+
+Lemma incl_masked T1 T q : incl T1 T -> masked T1 q = true -> masked T q = true.
+Proof. rewrite !masked_spec. intros Hi (t & Ht & Hp). exists t. split; [apply Hi; exact Ht|exact Hp]. Qed.
+
+(** The intermediate remote after a failed Commit. *)
+Inductive partial_remote (c : cache) : fs -> Prop :=
+| PR_tombs T1 : incl T1 (cT c) -> partial_remote c (apply_tombs (cR c) T1)
+| PR_buffer l r : (forall p e, In (p, e) l -> In (p, e) (cB c)) ->
+                  materialise (apply_tombs (cR c) (cT c)) l = Some r -> partial_remote c r.
+
+Theorem commit_converges_after_failure c rp :
+  Inv c -> partial_remote c rp ->
+  exists c', c_commit (mkCache (cB c) rp (cT c)) = (c', RUnit) /\
+             cB c' = cB c /\ cT c' = [] /\
+             forall q, lookup (cR c') q = vlookup c q.
+Proof.
+  intros I Hp.
+  destruct (apply_tombs_spec (cT c) (cR c) (inv_R c I) (inv_T c I)) as [W0 L0].
+  set (r0 := apply_tombs (cR c) (cT c)) in *.
+  assert (Lv : forall q, lookup r0 q = vis c q) by (intros q; rewrite L0; reflexivity).
+  assert (C1 : forall q, lookup (cB c) q = Some D -> forall d, lookup r0 q <> Some (F d))
+    by (intros q Hq d; rewrite Lv; exact (inv_dir c I q Hq d)).
+  assert (C2 : forall q d, lookup (cB c) q = Some (F d) -> lookup r0 q <> Some D)
+    by (intros q d Hq; rewrite Lv; exact (proj1 (inv_file c I q d Hq))).
+  (* the state from which the retry materialises: all tombstones applied to the partial remote *)
+  assert (HG : G (cB c) r0 (apply_tombs rp (cT c))).
+  { destruct Hp as [T1 Hincl|l r Hl Hm].
+    - destruct (apply_tombs_spec T1 (cR c) (inv_R c I) (fun t H => inv_T c I t (Hincl t H))) as [W1 L1].
+      destruct (apply_tombs_spec (cT c) _ W1 (inv_T c I)) as [W2 L2].
+      split; [exact W2|]. intros q.
+      assert (E : lookup (apply_tombs (apply_tombs (cR c) T1) (cT c)) q = lookup r0 q).
+      { rewrite L2, L1, L0. destruct (masked (cT c) q) eqn:Em; [reflexivity|].
+        destruct (masked T1 q) eqn:E1; [|reflexivity]. rewrite (incl_masked T1 (cT c) q Hincl E1) in Em. discriminate. }
+      rewrite E. destruct (lookup (cB c) q); auto.
+    - assert (HG0 : G (cB c) r0 r0).
+      { split; [exact W0|]. intros q. destruct (lookup (cB c) q); auto. }
+      destruct (G_materialise (cB c) r0 (inv_B c I) C1 C2 l r0 HG0 Hl) as (r' & Hm' & [Wr Hgr] & _ & _).
+      change (materialise r0 l = Some r) in Hm. rewrite Hm in Hm'. inversion Hm'; subst r'.
+      destruct (apply_tombs_spec (cT c) r Wr (inv_T c I)) as [W2 L2].
+      split; [exact W2|]. intros q. rewrite L2. specialize (Hgr q).
+      destruct (masked (cT c) q) eqn:Em.
+      + assert (E0 : lookup r0 q = None) by (rewrite L0, Em; reflexivity).
+        rewrite E0. destruct (lookup (cB c) q); auto.
+      + exact Hgr. }
+  destruct (G_commit_all (cB c) r0 (inv_B c I) C1 C2 _ HG) as (r2 & Hm2 & W2 & L2).
+  exists (mkCache (cB c) r2 []). unfold c_commit. simpl. rewrite Hm2.
+  split; [reflexivity|]. split; [reflexivity|]. split; [reflexivity|].
+  intros q. simpl. rewrite L2. unfold vlookup. rewrite Lv. reflexivity.
+Qed.
